@@ -163,9 +163,6 @@ func (r *Runtime) toPropertyDescriptor(v Value) (ret PropertyDescriptor) {
 	if o, ok := v.(*Object); ok {
 		descr := o.self
 
-		// Save the original descriptor for reference
-		ret.jsDescriptor = o
-
 		ret.Value = descr.getStr("value", nil)
 
 		if p := descr.getStr("writable", nil); p != nil {
